@@ -17,6 +17,9 @@ Cfgs(hostseqs, pols, outs, ks, idems, cancels) ==
 \* ---- exhaustive property configurations
 \* quick: <= 3 hosts (usable or not), budgets 0..2 and no policy, both idempotence values; k <= 1 on
 \* every host pattern, k = 2 on three of them; cancellation on two patterns with all outcome classes
+\* hosts that are reported down once an attempt on them has ended (a same-host retry finds its host gone)
+CfgOnce == Cfgs({<<"okonce">>, <<"okonce", "ok">>, <<"ok", "okonce">>, <<"okonce", "okonce">>}, {PolBudget(2), PolScript({1, 2})},
+                ScriptOuts, {0}, BOOLEAN, {"none"})
 Pols012 == {PolNone} \cup {PolBudget(n) : n \in 0 .. 2}
 CfgQuick ==
   Cfgs(HostSeqs(3, {"ok", "noconn"}), Pols012, CoreOuts, {0, 1}, BOOLEAN, {"none"})
@@ -24,6 +27,7 @@ CfgQuick ==
   \cup Cfgs({<<"ok", "ok", "ok">>}, {PolBudget(1)}, CoreOuts, {2}, {TRUE}, {"none"})
   \cup Cfgs({<<"ok", "ok">>}, {PolBudget(1), PolScript({2})}, ScriptOuts, {0, 1}, BOOLEAN, {"cancel", "deadline"})
   \cup Cfgs({<<"ok", "noconn", "ok">>}, {PolBudget(1)}, CoreOuts, {0, 1}, BOOLEAN, {"cancel", "deadline"})
+  \cup CfgOnce
 \* thorough: all outcome classes, non-monotone budgets, 4 hosts, cancellation everywhere
 CfgThA == Cfgs(HostSeqs(3, {"ok", "noconn"}), Pols012 \cup {PolScript({2})},
                ScriptOuts, 0 .. 2, BOOLEAN, {"none"})
@@ -47,6 +51,7 @@ CfgSeq ==
   Cfgs(HostSeqs(3, {"ok", "noconn"}), {PolNone} \cup {PolBudget(n) : n \in 0 .. 2} \cup {PolScript({2})}, ScriptOuts, {0}, BOOLEAN, {"none"})
   \cup Cfgs({<<"ok", "ok", "ok">>, <<"ok", "ok", "ok", "ok">>}, {PolBudget(3)}, CoreOuts, {0}, BOOLEAN, {"none"})
   \cup Cfgs(HostSeqs(2, {"ok", "down", "nopool"}), {PolBudget(1)}, CoreOuts, {1}, {FALSE}, {"none"})
+  \cup CfgOnce
   \cup Cfgs({<<"ok", "ok", "ok">>}, {PolBudget(2)}, CoreOuts, {1, 2}, {FALSE}, {"none", "deadline"})
   \cup Cfgs({<<"ok", "ok">>, <<"noconn", "ok", "ok">>}, {PolNone, PolBudget(1), PolBudget(2)}, CoreOuts, {0}, BOOLEAN, {"cancel", "deadline"})
 CfgSeqThorough ==
